@@ -283,6 +283,80 @@ def alias_tie(ctx, ir):
     return dist
 
 
+def resolve_tie(ctx, ir):
+    """_resolve_positional_inputs vs IoResolve.resolve (names parsed with the module's own compiled pattern)"""
+    from jax2onnx import user_interface as ui
+    rng = ctx.rng
+    n_cases = 300 if ctx.tier == "quick" else 3000
+    pool = ["in_0", "in_1", "in_2", "in_3", "in_0_nchw", "in_1_nchw", "in_2_nchw", "in_01", "in_10", "deterministic", "x", "in_x", "in_1_", "xin_1", "in_"]
+    rows, dist = [], {"by_index": 0, "fallback": 0, "raises": 0, "n=0": 0, "violations": 0}
+    for ci in range(n_cases):
+        k = rng.randint(0, 5)
+        names = rng.sample(pool, k)
+        n = rng.choice([0, 1, 1, 2, 2, 3, 3, 4])
+        if rng.random() < 0.4:   # the usual situation: exactly the positional names (some NCHW), shuffled, plus parameters
+            names = [f"in_{i}" + ("_nchw" if rng.random() < 0.3 else "") for i in range(n)] + rng.sample(["deterministic", "x"], rng.randint(0, 2))
+            rng.shuffle(names)
+        ins = [ir.val(nm, ir.DataType.FLOAT, (2,)) for nm in names]
+        o = ir.val("o", ir.DataType.FLOAT, (2,))
+        c = ir.val("c", ir.DataType.FLOAT, (2,), const_value=ir.tensor(np.zeros(2, np.float32)))
+        g = ir.Graph(ins, [o], nodes=[ir.Node("", "Relu", [ins[0] if ins else c], outputs=[o], name="n")], name="g", opset_imports={"": 23})
+        parsed = []
+        for nm in names:
+            mt = ui._POSITIONAL_INPUT_NAME_RE.fullmatch(nm)
+            parsed.append(int(mt.group(1)) if mt else None)
+        try:
+            got = [next(i for i, v in enumerate(ins) if v is r) for r in ui._resolve_positional_inputs(g, n)]
+        except ValueError:
+            got = None
+        want_idx = [next((i for i, p_ in enumerate(parsed) if p_ == kk), None) for kk in range(n)]
+        if n == 0:
+            dist["n=0"] += 1
+        elif got is None:
+            dist["raises"] += 1
+        elif all(w is not None for w in want_idx):
+            dist["by_index"] += 1
+        else:
+            dist["fallback"] += 1
+        # the property, decided directly: with all positional names present, name k must land on argument k
+        if n and all(w is not None for w in want_idx) and got != want_idx:
+            dist["violations"] += 1
+            ctx.violate("custom-names:input-name-on-wrong-argument",
+                        f"graph inputs {names}: input_names for {n} positional arguments are applied to inputs {got}, "
+                        f"but argument k is the input named in_k (positions {want_idx})",
+                        {"kind": "resolve", "input_names_of_graph": names, "n": n, "real": got, "want": want_idx})
+        rows.append((parsed, n, got))
+    seen = set()
+    ctx.violations[:] = [v for v in ctx.violations if not (v["key"] == "custom-names:input-name-on-wrong-argument" and (v["key"] in seen or seen.add(v["key"])))]
+
+    def olit(x):
+        return "None" if x is None else f"(Some {x}%nat)"
+    head = common.CASES_HEADER + ("From J2O Require Import IoResolve.\n"
+        "Definition leq_ (a b : list nat) : bool := (Nat.eqb (List.length a) (List.length b)) && forallb (fun p => Nat.eqb (fst p) (snd p)) (combine a b).\n"
+        "Definition rcase_ := (list (option nat) * nat * option (list nat))%type.\n"
+        "Definition rcmp_ (c : rcase_) : bool := let '(ps, n, r) := c in\n"
+        "  match resolve (combine (seq 0 (List.length ps)) ps) n, r with Some a, Some b => leq_ a b | None, None => true | _, _ => false end.\n")
+    txt = head
+    chunks = [rows[i:i + 150] for i in range(0, len(rows), 150)]
+    for k, ch in enumerate(chunks):
+        txt += f"Definition rs{k} : list rcase_ := [\n" + ";\n".join(
+            "([" + "; ".join(olit(x) for x in ps) + f"], {n}%nat, " +
+            ("None" if got is None else "Some [" + "; ".join(f"{i}%nat" for i in got) + "]") + ")" for ps, n, got in ch) + "].\n"
+        txt += f"Eval vm_compute in bad_idx_ rcmp_ 0 rs{k}.\n"
+    ok, out = common.coq_eval_file(ctx, "c05_resolve_cases", txt)
+    lists = re.findall(r"=\s*(\[[^\]]*\]|nil)\s*:\s*list nat", out.replace("\n", " "))
+    if not ok or len(lists) != len(chunks):
+        ctx.oblige("tie:IoResolve.resolve-vs-real-_resolve_positional_inputs", False, "tie", out[-1500:])
+    else:
+        bad = []
+        for k, ch in enumerate(chunks):
+            l = lists[k]
+            bad += [ch[int(t.replace("%nat", ""))] for t in ([] if l in ("nil", "[]") else l.strip("[]").split(";")) if t.strip()]
+        ctx.oblige(f"tie:IoResolve.resolve-equals-real-_resolve_positional_inputs({len(rows)} graphs)", not bad, "tie",
+                   "" if not bad else "model and implementation differ on (parsed indices, n, real): " + "; ".join(str(b) for b in bad[:5]))
+    return dist
+
+
 def run(ctx):
     import jax
     import onnx_ir as ir
@@ -445,6 +519,7 @@ def run(ctx):
         ctx.oblige(f"validator:interface_ok evaluated in Coq on {len(items)} real exports", True, "tie", f"{n_bad} rejected by the checker")
     names_cov = names_tie(ctx, ir)
     names_cov["aliasing"] = alias_tie(ctx, ir)
+    names_cov["resolve_positional"] = resolve_tie(ctx, ir)
     ctx.coverage.update({"custom_names": names_cov, "evaluations": len(rows) + len(items), "distinct_nontrivial": len(items),
                          "rule": "prune: random graphs over a pool of 19 input names x used/unused; interface: 17 programs (unused inputs, constant/duplicated/aliased outputs, "
                                  "pytrees, int/bool/f16, symbolic dims, 4-D images) x {single,double} x {default,custom names} x layout flags, checked against jax.eval_shape",
@@ -475,6 +550,19 @@ def replay(path):
         bad = len(set(after)) != len(after) or any(after[i] != (want.get(i, r["values"][i])) for i in range(len(after)))
         print("names before", r["values"], "after", after)
         return 1 if bad else 0
+    if r.get("kind") == "resolve":
+        import onnx_ir as ir
+        from jax2onnx import user_interface as ui
+        ins = [ir.val(nm, ir.DataType.FLOAT, (2,)) for nm in r["input_names_of_graph"]]
+        o = ir.val("o", ir.DataType.FLOAT, (2,))
+        g = ir.Graph(ins, [o], nodes=[ir.Node("", "Relu", [ins[0]], outputs=[o], name="n")], name="g", opset_imports={"": 23})
+        try:
+            got = [next(i for i, v in enumerate(ins) if v is x) for x in ui._resolve_positional_inputs(g, r["n"])]
+        except ValueError as exc:
+            print("raises", exc)
+            return 0
+        print("resolved", got, "want", r["want"])
+        return 1 if got != r["want"] else 0
     if r.get("kind") == "prune_names":
         import onnx_ir as ir
         from jax2onnx.converter import ir_optimizations as opt
